@@ -6,7 +6,7 @@ every cursor access under the channel lock (L-GUARDED), balanced locking
 from .. import lockrules as LR
 from ..locks import LockAnalysis
 from ..channelrules import (CHANNEL_FIELDS, channel_functions, rule_write_guard,
-                            rule_encaps, rule_dimensions)
+                            rule_encaps, rule_dimensions, rule_stale_across_wait)
 
 EXPLANATION = (
     "Static analysis over clang CFGs. R-WRITE-GUARD: a path-sensitive dataflow "
@@ -34,6 +34,7 @@ def run(ctx, res):
         "flag values read twice within one hold of the lock are equal (used to prune contradictory branches)",
     ]
     rule_write_guard(prog, res)
+    rule_stale_across_wait(prog, res, la, CHANNEL_FIELDS)
     n = rule_encaps(prog, res, la)
     LR.rule_l_pair(la, res, channel_functions(prog))
     LR.rule_l_guarded(la, res, ("channel", "lock"), CHANNEL_FIELDS,
